@@ -17,9 +17,9 @@ func (k Keeper) RegisterCoin(
 	coinMetadata banktypes.Metadata,
 ) (*types.TokenPair, error) {
 	// Check if denomination is already registered
-	if k.IsDenomRegistered(ctx, coinMetadata.Name) {
+	if k.IsDenomRegistered(ctx, coinMetadata.Base) {
 		return nil, errorsmod.Wrapf(
-			types.ErrTokenPairAlreadyExists, "coin denomination already registered: %s", coinMetadata.Name,
+			types.ErrTokenPairAlreadyExists, "coin denomination already registered: %s", coinMetadata.Base,
 		)
 	}
 
